@@ -1,0 +1,24 @@
+//go:build verif
+// +build verif
+
+// Verification hook (C16): runs the proposer side (vrfWorker.genProve) on a worker built from plain values,
+// so that an external harness can compare what the proposer computes with what verifyBlockVRF accepts.
+// Add-only; compiled only with -tags verif.
+package logical
+
+import (
+	"time"
+
+	"com.tuntun.rangers/node/src/consensus/model"
+	"com.tuntun.rangers/node/src/consensus/vrf"
+	"com.tuntun.rangers/node/src/middleware/types"
+)
+
+func VerifC16GenProve(vrfPK, vrfSK, baseRandom []byte, baseTime, castTime time.Time, baseHeight, castHeight, workingMiners, totalStake uint64) ([]byte, uint64, error) {
+	miner := &model.SelfMinerInfo{VrfSK: vrf.VRFPrivateKey(vrfSK)}
+	miner.VrfPK = vrf.VRFPublicKey(vrfPK)
+	miner.WorkingMiners = workingMiners
+	base := &types.BlockHeader{Random: baseRandom, CurTime: baseTime, Height: baseHeight}
+	w := newVRFWorker(miner, base, castHeight, castTime.Add(time.Hour))
+	return w.genProve(castTime, totalStake)
+}
